@@ -102,7 +102,7 @@ type cmHarness struct {
 	outOfOrd  bool
 	far       bool
 	maxSect   int
-	exclAlias bool
+	quiet     bool // inside a long ascending run: no per-operation trace line and lookup (the final sweep looks everything up)
 }
 
 func newCmHarness(withMemDb bool) *cmHarness {
@@ -160,7 +160,9 @@ func (h *cmHarness) set(t fataler, k uint64, units int64, size int32) bool {
 	if _, ok := h.ref.m[k]; !ok && len(h.ref.m) > 0 && k < h.ref.maxKey {
 		h.outOfOrd = true
 	}
-	h.logf("Set(%x,%d,%d)", k, units, size)
+	if !h.quiet {
+		h.logf("Set(%x,%d,%d)", k, units, size)
+	}
 	oldOff, oldSize := h.cm.Set(types.NeedleId(k), offOf(units), types.Size(size))
 	prev := h.ref.set(k, units, size)
 	if prev != nil && !prev.deleted && prev.size > 0 {
@@ -175,7 +177,9 @@ func (h *cmHarness) set(t fataler, k uint64, units int64, size int32) bool {
 			t.Fatalf("MemDb.Set(%x): %v", k, err)
 		}
 	}
-	h.checkKey(t, k)
+	if !h.quiet {
+		h.checkKey(t, k)
+	}
 	return false
 }
 
